@@ -96,7 +96,9 @@ func init() {
 			for i := range alts {
 				alts[i] = i
 			}
-			return fr.ex.ctx.ConstS(64, int64(fr.ex.choose("vchoose", alts)))
+			k := fr.ex.choose("vchoose", alts)
+			fr.ex.vchoices = append(fr.ex.vchoices, k)
+			return fr.ex.ctx.ConstS(64, int64(k))
 		},
 		"vIsConcrete": func(fr *frame, args []Value) Value {
 			return fr.ex.ctx.Bool(args[0].(*smt.Term).IsConst())
